@@ -176,8 +176,14 @@ def r5(ctx):
         for c in idx.calls_in(q):
             if isinstance(c.func, ast.Attribute) and c.func.attr in ("add", "set") and text(c.func.value) in ("CookieJar",):
                 callers.append((q, c))
-    ok = len(callers) == 1 and callers[0][0] == "_handshake:handshake_response.__init__" and text(callers[0][1].args[0]).replace("'", '"') == 'headers.get("set-cookie")'
+    ok = len(callers) == 1 and callers[0][0] == "_handshake:handshake_response.__init__"
     ctx.ob("_handshake:CookieJar:single-feeder", ok, f"CookieJar.add/set called from {[(q, text(c)) for q, c in callers]}", idx.loc(callers[0][1]) if callers else "")
+    Ih = Interp(idx, Config(stubs={f"{JAR}.add": lambda I, run, a, k, n: (run.effect("CookieJar.add", a[1:], node=n), NONE)[1]}))
+    outs_h = ctx.count_paths(Ih.explore(lambda run: Ih.call(run, Cls("_handshake:handshake_response"),
+                                                           [C(101), new_dict(run, {"set-cookie": Sym("sc", "str"), "other": Sym("x", "str")}, False, "resp"), NONE], {}, None)))
+    fed = [e.args for o in outs_h for e in o.effects if e.name == "CookieJar.add"]
+    ctx.ob("_handshake:handshake_response:feeds-the-set-cookie-header", bool(fed) and all(a == (Sym("sc", "str"),) for a in fed),
+           f"CookieJar.add{fed[0] if fed else ()}", idx.loc(idx.func("_handshake:handshake_response.__init__").node))
     # read_headers merges
     lines = [b"HTTP/1.1 101 Switching Protocols\r\n", b"Set-Cookie: a=1; Domain=x.org\r\n", b"X-Other: 1\r\n", b"set-cookie: b=2\r\n", b"\r\n"]
 
